@@ -2106,11 +2106,20 @@ class _FuncAnalysis:
                             if self.entails(a, h) and self.entails(b, h):
                                 keep.add(h)
         # off-by-small-constant relaxations of facts that hold on one side only
+        best = {}
+        for f in keep:
+            kf = frozenset(f.t.items())
+            if kf not in best or f.c < best[kf]:
+                best[kf] = f.c
         for f in (fa | fb) - keep:
+            kf = frozenset(f.t.items())
             for k in (1, 2):
                 g = f + Lin.const(k)
+                if kf in best and best[kf] <= g.c:
+                    break       # something at least as strong with the same linear part is kept already
                 if g not in keep and self.entails(a, g) and self.entails(b, g):
                     keep.add(g)
+                    best[kf] = g.c
                     break
         # sign of a variable that got different values on the two sides (a length clamped on one branch only)
         lost = set()
@@ -2124,7 +2133,7 @@ class _FuncAnalysis:
                 if self.entails(a, g) and self.entails(b, g):
                     keep.add(g)
                     break
-        return State(frozenset(_strongest(keep)), a.regions & b.regions)
+        return State(frozenset(keep), a.regions & b.regions)
 
     def run(self):
         func = self.func
